@@ -67,6 +67,17 @@ def reference(start, stop, factor, n):
     return out
 
 
+def dj(x):
+    """jitter given as another numeric type: ['dec', '0.5'] -> Decimal, ['frac', 1, 3] -> Fraction."""
+    if isinstance(x, list):
+        if x[0] == 'dec':
+            import decimal
+            return decimal.Decimal(x[1])
+        import fractions
+        return fractions.Fraction(x[1], x[2])
+    return x
+
+
 def call(c, scripted=None):
     iu = common.load('iterutils')
     kw = {}
@@ -78,7 +89,7 @@ def call(c, scripted=None):
     if c['factor'] != 'default':
         kw['factor'] = c['factor']
     if c['jitter'] != 'default':
-        kw['jitter'] = c['jitter']
+        kw['jitter'] = dj(c['jitter'])
     real = iu.random
     if scripted is not None:
         iu.random = scripted
@@ -95,8 +106,8 @@ def call(c, scripted=None):
 def check(c, st):
     start, stop = c['start'], c['stop']
     factor = 2.0 if c['factor'] == 'default' else float(c['factor'])
-    jitter = c['jitter']
-    j = 0.0 if jitter in ('default', False) else (1.0 if jitter is True else float(jitter))
+    jitter = dj(c['jitter'])
+    j = 0.0 if (isinstance(jitter, (str, bool)) and jitter in ('default', False)) else (1.0 if jitter is True else float(jitter))
     count = c['count']
     valid = (0 <= start <= stop and stop > 0 and factor >= 1 and -1 <= j <= 1
              and (count in ('default', 'repeat') or count >= 0))        # (every comparison is False for NaN)
@@ -109,7 +120,7 @@ def check(c, st):
         if got != ('exc', 'ValueError'):
             return ('invalid-accepted' + why, 'backoff(%r) = %r, expected ValueError' % (c, got))
         iu = common.load('iterutils')
-        kw = {k: c[k] for k in ('count', 'factor', 'jitter') if c[k] != 'default'}
+        kw = {k: dj(c[k]) for k in ('count', 'factor', 'jitter') if c[k] != 'default'}
         it = iu.backoff_iter(start, stop, **kw)
         first = outcome(lambda: next(it))
         if first != ('exc', 'ValueError'):
@@ -233,7 +244,7 @@ def gen(r):
     count = r.choice(['default', 'default', 'default', 0, 1, 2, 5, 17, 'repeat', 12.0, 3.0, 1e3, 10 ** 20, 2 ** 63])
     if f == 1.0 and count == 'default':
         count = r.choice([0, 1, 3, 'repeat'])
-    jitter = r.choice(['default', 'default', False, True, -1, -0.5, 0.3, 1, 1.0, 0.999])
+    jitter = r.choice(['default', 'default', False, True, -1, -0.5, 0.3, 1, 1.0, 0.999, ['dec', '0.5'], ['dec', '-1'], ['frac', 1, 3]])
     c = {'start': start, 'stop': stop, 'factor': factor, 'count': count, 'jitter': jitter,
          'via': r.choice(['list', 'iter']), 'rseed': r.randint(0, 10 ** 6)}
     if r.random() < 0.12:   # invalid parameters
